@@ -49,6 +49,8 @@ func init() {
 		NumCases: func(tier string, seed uint64) int { return c14Scenarios * c14Repeats(tier) },
 		RunCase:  c14Case,
 		Post:     c14Post,
+		// a worker killed by the runtime ("fatal error: concurrent map read and map write") refutes the property
+		CrashIsViolation: true,
 	})
 }
 
@@ -110,15 +112,50 @@ func (m *c14Mon) guarded(method int, what string, f func()) {
 	f()
 }
 
+// agree collects the values concurrent callers obtained for something that
+// must be a single value; nothing is computed beforehand on the shared object
+// (no warm-up: the first use of a value must itself be safe under concurrency).
+type agree struct {
+	mu   sync.Mutex
+	set  bool
+	val  string
+	what string
+}
+
+func (a *agree) observe(m *c14Mon, v string) {
+	a.mu.Lock()
+	if !a.set {
+		a.set, a.val = true, v
+		a.mu.Unlock()
+		return
+	}
+	first := a.val
+	a.mu.Unlock()
+	if first != v {
+		m.violate("value-differs-under-concurrency", fmt.Sprintf("%s: concurrent callers obtained %s and %s", a.what, first, v))
+	}
+}
+
+// final compares what the concurrent callers saw with a single-threaded reference.
+func (a *agree) final(m *c14Mon, ref string) {
+	a.mu.Lock()
+	defer a.mu.Unlock()
+	if a.set && a.val != ref {
+		m.violate("value-differs-under-concurrency", fmt.Sprintf("%s: concurrent callers obtained %s, single-threaded evaluation gives %s", a.what, a.val, ref))
+	}
+}
+
+func f32(v float32) string { return fmt.Sprintf("%v(%08x)", v, math.Float32bits(v)) }
+
 type wlShared struct {
-	rec      *spg.WLRecipe
-	kept     map[string]bool
-	titled   map[string]bool
-	sepOK    func(string) bool
-	entropy  float32
-	name     string
-	length   int
-	anyTitle bool
+	rec    *spg.WLRecipe
+	words  []string
+	kept   map[string]bool
+	titled map[string]bool
+	sepOK  func(string) bool
+	ent    *agree
+	name   string
+	length int
 }
 
 func newWLShared(name string, words []string, L int, scheme string, preset string, sepChar string) *wlShared {
@@ -128,7 +165,7 @@ func newWLShared(name string, words []string, L int, scheme string, preset strin
 	}
 	rec := spg.NewWLRecipe(L, wl)
 	rec.Capitalize = spg.CapScheme(scheme)
-	s := &wlShared{rec: rec, kept: map[string]bool{}, titled: map[string]bool{}, name: name, length: L}
+	s := &wlShared{rec: rec, words: words, kept: map[string]bool{}, titled: map[string]bool{}, name: name, length: L, ent: &agree{what: name + " entropy"}}
 	for _, w := range oracle.Normalize(words) {
 		s.kept[w] = true
 		s.titled[oracle.Title(w)] = true
@@ -150,15 +187,23 @@ func newWLShared(name string, words []string, L int, scheme string, preset strin
 		rec.SeparatorChar = sepChar
 		s.sepOK = func(v string) bool { return v == sepChar }
 	}
-	s.entropy = rec.Entropy()
 	return s
 }
 
-func (s *wlShared) check(m *c14Mon, p *spg.Password) {
-	if math.Float32bits(p.Entropy) != math.Float32bits(s.entropy) {
-		m.violate("entropy-differs-under-concurrency", fmt.Sprintf("%s: password carries entropy %v, recipe reports %v single-threaded", s.name, p.Entropy, s.entropy))
-		return
+// finish: single-threaded references, computed after the concurrent phase on
+// the shared recipe and on a twin built from a fresh list.
+func (s *wlShared) finish(m *c14Mon) {
+	s.ent.final(m, f32(s.rec.Entropy()))
+	if wl, err := spg.NewWordList(s.words); err == nil {
+		twin := *s.rec
+		t2 := spg.NewWLRecipe(twin.Length, wl)
+		t2.Capitalize, t2.SeparatorChar, t2.SeparatorFunc = twin.Capitalize, twin.SeparatorChar, twin.SeparatorFunc
+		s.ent.final(m, f32(t2.Entropy()))
 	}
+}
+
+func (s *wlShared) check(m *c14Mon, p *spg.Password) {
+	s.ent.observe(m, f32(p.Entropy))
 	ts := p.Tokens()
 	atoms := ts.Atoms()
 	if len(atoms) != s.length {
@@ -192,26 +237,27 @@ func (s *wlShared) check(m *c14Mon, p *spg.Password) {
 	}
 }
 
-func c14Case(c *Ctx) {
-	scenario := c.Case % c14Scenarios
-	G := []int{4, 16, 64}[(c.Case/c14Scenarios)%3]
-	iters := 2400 / G
-	if iters < 20 {
-		iters = 20
-	}
-	mon := &c14Mon{}
-	rand.Reader = &yieldReader{}
-	defer tape.Restore()
+type c14Job func(g, i int)
 
-	type job func(g, i int)
-	var jobs []job
-
-	charJob := func(name string, get func() spg.CharRecipe, ptr *spg.CharRecipe) job {
-		r0 := get()
-		sem := oracle.CharSemOf(r0)
-		e0 := r0.Entropy()
-		a0 := r0.Alphabet()
-		sp0 := r0.SuccessProbability()
+// c14Build assembles the jobs of one scenario on freshly constructed shared
+// values and returns them with the post-hoc reference checks.
+func c14Build(scenario int, mon *c14Mon, round int) (jobs []c14Job, finish []func()) {
+	charJob := func(name string, get func() spg.CharRecipe, ptr *spg.CharRecipe) c14Job {
+		sem := oracle.CharSemOf(get())
+		ent := &agree{what: name + " entropy"}
+		alpha := &agree{what: name + " alphabet"}
+		sp := &agree{what: name + " success probability"}
+		finish = append(finish, func() {
+			r := get()
+			ent.final(mon, f32(r.Entropy()))
+			alpha.final(mon, r.Alphabet())
+			alpha.final(mon, sem.AlphabetString())
+			sp.final(mon, f32(r.SuccessProbability()))
+			want := oracle.Log2Big(sem.Count(sem.Length))
+			if e := float64(r.Entropy()); math.Abs(e-want) > oracle.Ulp32(want)+1e-6 && !(math.IsInf(e, -1) && math.IsInf(want, -1)) {
+				mon.violate("value-differs-under-concurrency", fmt.Sprintf("%s: entropy after the concurrent phase is %v, log2 of the exact count is %.6f", name, e, want))
+			}
+		})
 		return func(g, i int) {
 			switch (g + i) % 5 {
 			case 0, 1:
@@ -229,50 +275,40 @@ func c14Case(c *Ctx) {
 					if cl, msg := checkCharPassword(sem, p); cl != "" {
 						mon.violate("invalid-password-under-concurrency", name+": "+msg)
 					}
-					if math.Float32bits(p.Entropy) != math.Float32bits(e0) {
-						mon.violate("entropy-differs-under-concurrency", fmt.Sprintf("%s: password carries entropy %v, recipe reports %v single-threaded", name, p.Entropy, e0))
-					}
+					ent.observe(mon, f32(p.Entropy))
 				})
 			case 2:
 				mon.guarded(1, name+".Entropy", func() {
-					var e float32
 					if ptr != nil {
-						e = ptr.Entropy()
+						ent.observe(mon, f32(ptr.Entropy()))
 					} else {
-						e = func() float32 { r := get(); return r.Entropy() }()
-					}
-					if math.Float32bits(e) != math.Float32bits(e0) {
-						mon.violate("entropy-differs-under-concurrency", fmt.Sprintf("%s: Entropy()=%v under concurrency, %v single-threaded", name, e, e0))
+						r := get()
+						ent.observe(mon, f32(r.Entropy()))
 					}
 				})
 			case 3:
 				mon.guarded(2, name+".Alphabet", func() {
-					var a string
 					if ptr != nil {
-						a = ptr.Alphabet()
+						alpha.observe(mon, ptr.Alphabet())
 					} else {
-						a = func() string { r := get(); return r.Alphabet() }()
-					}
-					if a != a0 {
-						mon.violate("alphabet-differs-under-concurrency", fmt.Sprintf("%s: Alphabet()=%q under concurrency, %q single-threaded", name, a, a0))
+						r := get()
+						alpha.observe(mon, r.Alphabet())
 					}
 				})
 			default:
 				mon.guarded(3, name+".SuccessProbability", func() {
-					var sp float32
 					if ptr != nil {
-						sp = ptr.SuccessProbability()
+						sp.observe(mon, f32(ptr.SuccessProbability()))
 					} else {
-						sp = func() float32 { r := get(); return r.SuccessProbability() }()
-					}
-					if math.Float32bits(sp) != math.Float32bits(sp0) {
-						mon.violate("success-probability-differs-under-concurrency", fmt.Sprintf("%s: %v vs %v", name, sp, sp0))
+						r := get()
+						sp.observe(mon, f32(r.SuccessProbability()))
 					}
 				})
 			}
 		}
 	}
-	wlJob := func(s *wlShared) job {
+	wlJob := func(s *wlShared) c14Job {
+		finish = append(finish, func() { s.finish(mon) })
 		return func(g, i int) {
 			switch (g + i) % 4 {
 			case 0, 1:
@@ -285,11 +321,7 @@ func c14Case(c *Ctx) {
 					s.check(mon, p)
 				})
 			case 2:
-				mon.guarded(1, s.name+".Entropy", func() {
-					if e := s.rec.Entropy(); math.Float32bits(e) != math.Float32bits(s.entropy) {
-						mon.violate("entropy-differs-under-concurrency", fmt.Sprintf("%s: Entropy()=%v under concurrency, %v single-threaded", s.name, e, s.entropy))
-					}
-				})
+				mon.guarded(1, s.name+".Entropy", func() { s.ent.observe(mon, f32(s.rec.Entropy())) })
 			default:
 				mon.guarded(4, s.name+".Size", func() {
 					if n := s.rec.Size(); int(n) != len(s.kept) {
@@ -299,21 +331,24 @@ func c14Case(c *Ctx) {
 			}
 		}
 	}
-	presetJob := func(name string, sf spg.SFFunction, valid func(string) bool, e0 float32) job {
+	sepJob := func(name string, sf spg.SFFunction, valid func(string) bool) c14Job {
+		ent := &agree{what: name + " declared entropy"}
+		finish = append(finish, func() {
+			_, e := sf()
+			ent.final(mon, f32(float32(e)))
+		})
 		return func(g, i int) {
 			mon.guarded(5, name, func() {
 				s, e := sf()
 				if !valid(s) {
 					mon.violate("invalid-separator-under-concurrency", fmt.Sprintf("%s returned %q", name, s))
 				}
-				if math.Float32bits(float32(e)) != math.Float32bits(e0) {
-					mon.violate("entropy-differs-under-concurrency", fmt.Sprintf("%s declared %v bits under concurrency, %v single-threaded", name, e, e0))
-				}
+				ent.observe(mon, f32(float32(e)))
 			})
 		}
 	}
-	presetJobs := func() []job {
-		var out []job
+	presetJobs := func() []c14Job {
+		var out []c14Job
 		for _, name := range presetNames {
 			valid := map[string]bool{}
 			if name == "SFNone" {
@@ -325,21 +360,23 @@ func c14Case(c *Ctx) {
 					valid[v] = true
 				}
 			}
-			_, e0 := presetByName[name]()
-			out = append(out, presetJob(name, presetByName[name], func(s string) bool { return valid[s] }, float32(e0)))
+			out = append(out, sepJob(name, presetByName[name], func(s string) bool { return valid[s] }))
 		}
 		return out
 	}
-	words := []string{"apple", "pear", "plum", "fig", "kiwi", "Polish", "polish", "123", "éa"}
+	words := []string{"apple", "pear", "plum", "fig", "kiwi", "Polish", "polish", "123", "éa", "7up", "2001"}
+	if round > 0 { // fresh, distinct values every round: first uses keep happening
+		words = append(words, fmt.Sprintf("round%dword", round), fmt.Sprintf("%dx", round))
+	}
 
 	switch scenario {
 	case 0: // shared *CharRecipe with requirements and custom sets
-		r := &spg.CharRecipe{Length: 12, Allow: spg.Letters, Require: spg.Digits, RequireSets: []string{"!@", "357"}, ExcludeChars: "lO"}
+		r := &spg.CharRecipe{Length: 12 + round%5, Allow: spg.Letters, Require: spg.Digits, RequireSets: []string{"!@", "357"}, ExcludeChars: "lO"}
 		jobs = append(jobs, charJob("shared *CharRecipe", func() spg.CharRecipe { return *r }, r))
-		r2 := spg.NewCharRecipe(20)
+		r2 := spg.NewCharRecipe(20 + round%7)
 		jobs = append(jobs, charJob("shared *CharRecipe (defaults)", func() spg.CharRecipe { return *r2 }, r2))
 	case 1: // a CharRecipe variable used by value from many goroutines (captured by reference)
-		var r spg.CharRecipe = spg.CharRecipe{Length: 8, Allow: spg.Digits | spg.Lowers, RequireSets: []string{"abc"}}
+		var r spg.CharRecipe = spg.CharRecipe{Length: 8 + round%6, Allow: spg.Digits | spg.Lowers, RequireSets: []string{"abc"}}
 		jobs = append(jobs, charJob("CharRecipe variable", func() spg.CharRecipe { return r }, nil))
 	case 2: // *WLRecipe for each scheme, preset separators
 		for i, sch := range schemes {
@@ -347,41 +384,39 @@ func c14Case(c *Ctx) {
 		}
 	case 3: // one *WordList under several recipes
 		wl, _ := spg.NewWordList(words)
+		nkept := len(oracle.Normalize(words))
 		for i, sch := range []string{"none", "random", "one"} {
 			s := newWLShared("recipes sharing one *WordList/"+sch, words, 3+i, sch, "", []string{"-", "", "語"}[i])
 			s.rec = spg.NewWLRecipe(3+i, wl)
 			s.rec.Capitalize = spg.CapScheme(sch)
 			s.rec.SeparatorChar = []string{"-", "", "語"}[i]
-			s.entropy = s.rec.Entropy()
 			jobs = append(jobs, wlJob(s))
 		}
 		jobs = append(jobs, func(g, i int) {
 			mon.guarded(4, "WordList.Size", func() {
-				if wl.Size() != 8 {
-					mon.violate("size-differs-under-concurrency", fmt.Sprintf("WordList.Size()=%d", wl.Size()))
+				if int(wl.Size()) != nkept {
+					mon.violate("size-differs-under-concurrency", fmt.Sprintf("WordList.Size()=%d, want %d", wl.Size(), nkept))
 				}
 			})
 		})
 	case 4: // every package preset called directly
 		jobs = presetJobs()
 	case 5: // shared constructed separator function
-		sr := spg.CharRecipe{Length: 2, AllowChars: "+=-", RequireSets: []string{"+="}}
+		sr := spg.CharRecipe{Length: 2 + round%2, AllowChars: "+=-", RequireSets: []string{"+="}}
 		sf := spg.NewSFFunction(sr)
 		valid := map[string]bool{"": true}
 		all, _ := oracle.CharSemOf(sr).EnumerateValid(1000)
 		for _, v := range all {
 			valid[v] = true
 		}
-		_, e0 := sf()
-		jobs = append(jobs, presetJob("constructed NewSFFunction", sf, func(s string) bool { return valid[s] }, float32(e0)))
+		jobs = append(jobs, sepJob("constructed NewSFFunction", sf, func(s string) bool { return valid[s] }))
 		s := newWLShared("WLRecipe with shared constructed separator", words, 3, "random", "", "")
 		s.rec.SeparatorFunc = sf
 		s.sepOK = func(v string) bool { return valid[v] }
-		s.entropy = s.rec.Entropy()
 		jobs = append(jobs, wlJob(s))
 	case 6: // shipped lists: shared input slice, shared list
 		wlA, _ := spg.NewWordList(spg.AgileSyllables)
-		sA := &wlShared{rec: spg.NewWLRecipe(4, wlA), kept: map[string]bool{}, titled: map[string]bool{}, name: "AgileSyllables recipe", length: 4}
+		sA := &wlShared{rec: spg.NewWLRecipe(4, wlA), words: spg.AgileSyllables, kept: map[string]bool{}, titled: map[string]bool{}, name: "AgileSyllables recipe", length: 4, ent: &agree{what: "AgileSyllables recipe entropy"}}
 		for _, w := range spg.AgileSyllables {
 			sA.kept[w] = true
 			sA.titled[oracle.Title(w)] = true
@@ -389,7 +424,6 @@ func c14Case(c *Ctx) {
 		sA.rec.Capitalize = spg.CSOne
 		sA.rec.SeparatorFunc = spg.SFDigits1
 		sA.sepOK = func(v string) bool { return len(v) == 1 && v[0] >= '0' && v[0] <= '9' }
-		sA.entropy = sA.rec.Entropy()
 		jobs = append(jobs, wlJob(sA))
 		jobs = append(jobs, func(g, i int) {
 			if i%40 != 0 {
@@ -403,28 +437,60 @@ func c14Case(c *Ctx) {
 			})
 		})
 	default: // everything mixed
-		r := &spg.CharRecipe{Length: 10, Allow: spg.All, Exclude: spg.Ambiguous, Require: spg.Digits | spg.Symbols}
+		r := &spg.CharRecipe{Length: 10 + round%4, Allow: spg.All, Exclude: spg.Ambiguous, Require: spg.Digits | spg.Symbols}
 		jobs = append(jobs, charJob("shared *CharRecipe", func() spg.CharRecipe { return *r }, r))
 		jobs = append(jobs, wlJob(newWLShared("shared *WLRecipe/random", words, 5, "random", "SFDigitsSymbols", "")))
 		jobs = append(jobs, presetJobs()...)
 	}
+	return jobs, finish
+}
 
-	var wg sync.WaitGroup
-	start := make(chan struct{})
-	for g := 0; g < G; g++ {
-		wg.Add(1)
-		go func(g int) {
-			defer wg.Done()
-			<-start
-			for i := 0; i < iters; i++ {
-				jobs[(g+i)%len(jobs)](g, i)
-			}
-		}(g)
+func c14Case(c *Ctx) {
+	scenario := c.Case % c14Scenarios
+	G := []int{4, 16, 64}[(c.Case/c14Scenarios)%3]
+	mon := &c14Mon{}
+	rand.Reader = &yieldReader{}
+	defer tape.Restore()
+	// Several rounds, each on freshly constructed shared values that are used for the first time by all
+	// goroutines at once (lazily initialised or memoised state has its first use under concurrency).
+	rounds := 6
+	iters := 2400 / G / rounds
+	if iters < 6 {
+		iters = 6
 	}
-	close(start)
-	wg.Wait()
+	if scenario == 6 {
+		rounds, iters = 2, 1200/G
+	}
+	for round := 0; round < rounds; round++ {
+		jobs, finish := c14Build(scenario, mon, round+c.Case*rounds)
+		var wg sync.WaitGroup
+		start := make(chan struct{})
+		for g := 0; g < G; g++ {
+			wg.Add(1)
+			go func(g int) {
+				defer wg.Done()
+				<-start
+				for i := 0; i < iters; i++ {
+					jobs[(g+i)%len(jobs)](g, i)
+				}
+			}(g)
+		}
+		close(start)
+		wg.Wait()
+		for _, f := range finish {
+			func() {
+				defer func() {
+					if r := recover(); r != nil {
+						mon.violate("panic-after-concurrent-phase", fmt.Sprint(r))
+					}
+				}()
+				f()
+			}()
+		}
+	}
 	c.Exec(int(atomic.LoadInt64(&mon.calls)))
 	c.Count("concurrent_calls", atomic.LoadInt64(&mon.calls))
+	c.Count("rounds_on_fresh_shared_values", int64(rounds))
 	c.Count(fmt.Sprintf("runs_with_%d_goroutines", G), 1)
 	npairs := 0
 	mon.pairs.Range(func(k, v interface{}) bool {
@@ -437,7 +503,7 @@ func c14Case(c *Ctx) {
 		c.Violate(v.Class, v.Msg, map[string]interface{}{"scenario": scenario, "goroutines": G})
 	}
 	if c.Case < c14Scenarios {
-		c.Sample(map[string]interface{}{"scenario": scenario, "goroutines": G, "calls": mon.calls, "overlapping_method_pairs": npairs})
+		c.Sample(map[string]interface{}{"scenario": scenario, "goroutines": G, "rounds": rounds, "calls": mon.calls, "overlapping_method_pairs": npairs})
 	}
 }
 
